@@ -96,6 +96,38 @@ pub fn drive(t: &mut Tracer, tier: &str, seed: u64) {
     for i in (0..ct.len()).step_by(step) {
         { let (s, d) = (key.sk.clone(), mutate(&ct, i, &mut rng)); let l = d.len(); call(t, &mut n, "sm2.decrypt.uncomp", "corrupted", l, move || e(s.decrypt(&d, false, Sm2Model::C1C3C2))); }
     }
+    // raw SM2 ciphertexts: every truncation, in each framing (the C1 prefix stays valid, so the slicing after it is reached)
+    let ct_c = pk.encrypt(b"attack at dawn", true, Sm2Model::C1C2C3).unwrap();
+    for i in 0..ct.len() {
+        { let (s, d) = (key.sk.clone(), ct[..i].to_vec()); call(t, &mut n, "sm2.decrypt.uncomp", "truncated", i, move || e(s.decrypt(&d, false, Sm2Model::C1C3C2))); }
+        { let (s, d) = (key.sk.clone(), ct[..i].to_vec()); call(t, &mut n, "sm2.decrypt.uncomp", "truncated", i, move || e(s.decrypt(&d, false, Sm2Model::C1C2C3))); }
+    }
+    for i in 0..ct_c.len() {
+        { let (s, d) = (key.sk.clone(), ct_c[..i].to_vec()); call(t, &mut n, "sm2.decrypt.comp", "truncated", i, move || e(s.decrypt(&d, true, Sm2Model::C1C2C3))); }
+        { let (s, d) = (key.sk.clone(), mutate(&ct_c, i, &mut rng)); let l = d.len(); call(t, &mut n, "sm2.decrypt.comp", "corrupted", l, move || e(s.decrypt(&d, true, Sm2Model::C1C2C3))); }
+    }
+    // SM9 ciphertexts C1 || C3 || C2: every truncation and byte-wise corruption of a valid one, and a valid C1 followed by tails of
+    // every interesting length (the key-derivation length depends on |C2|: 255/256 and beyond)
+    {
+        let ke = gm_sm9::u256::u256_from_be_bytes(&[3u8; 32]);
+        let msk = gm_sm9::key::Sm9EncMasterKey { ke, ppube: gm_sm9::points::Point::g_mul(&ke) };
+        let dk = msk.extract_key(b"bob").unwrap();
+        let ct9 = msk.encrypt(b"bob", b"twenty bytes of text");
+        for i in 0..ct9.len() {
+            { let (k, d) = (dk, ct9[..i].to_vec()); call(t, &mut n, "sm9.decrypt", "truncated", i, move || e(k.decrypt(b"bob", &d))); }
+            if i % step == 0 { let (k, d) = (dk, mutate(&ct9, i, &mut rng)); let l = d.len(); call(t, &mut n, "sm9.decrypt", "corrupted", l, move || e(k.decrypt(b"bob", &d))); }
+        }
+        let tails: Vec<usize> = if thorough { (0..=40).chain(250..=300).chain([511, 512, 1000, 4096]).collect() } else { vec![0, 1, 31, 32, 33, 254 + 32, 255 + 32, 256 + 32, 257 + 32, 300 + 32, 1000] };
+        for tl in tails {
+            let mut d = ct9[..65].to_vec(); d.extend(rng.bytes(tl)); let k = dk; let l = d.len();
+            call(t, &mut n, "sm9.decrypt", "valid-c1-tail", l, move || e(k.decrypt(b"bob", &d)));
+        }
+        // encryption must terminate for every message length with any key (no error channel: it may not panic)
+        for ml in [0usize, 1, 255, 256, 257, 300, 1000] {
+            let (m, msg) = (msk, rng.bytes(ml));
+            call(t, &mut n, "sm9.encrypt_len", "message-length", ml, move || -> Result<(), String> { let c = m.encrypt(b"bob", &msg); if c.len() == 65 + 32 + msg.len() { Ok(()) } else { Err("length".into()) } });
+        }
+    }
     // DER ciphertexts are short: every byte position, truncation and a boundary set of replacement values (not only one bit flip)
     for i in 0..der.len() {
         { let (s, d) = (key.sk.clone(), der[..i].to_vec()); call(t, &mut n, "sm2.decrypt_asn1", "truncated", i, move || e(s.decrypt_asn1(&d, false, Sm2Model::C1C3C2))); }
